@@ -30,6 +30,54 @@ def levels_index(t):
     return None
 
 
+def iterator_pairing(ctx, W, cr, ev0):
+    """Recognise `levels[P].extend(levels[C].chunks[_exact](2)[.take(n)].map(|pair| self.hash_nodes(&pair[0], &pair[1])).collect())`."""
+    P = ctx.prog
+    for bb, t in cr.calls():
+        if callee_name(t["fn"].get("path", "")) not in ("extend", "append", "extend_from_slice"):
+            continue
+        a = ev0.call_args(bb)
+        tgt = a[0]
+        if not (isinstance(tgt, tuple) and tgt[0] == "index" and tgt[1] == ("field", ("param", cr.path, 1), "levels")):
+            continue
+        src = W.expand(a[1])
+        chain = []
+        cur = src
+        while is_call(cur) and callee_name(cur[1]) in ("collect", "map", "take", "chunks", "chunks_exact", "into_iter", "iter", "by_ref"):
+            chain.append(cur)
+            if callee_name(cur[1]) in ("chunks", "chunks_exact"):
+                break
+            cur = W.expand(cur[2][0])
+        names = [callee_name(c[1]) for c in chain]
+        if "map" not in names or not chain or callee_name(chain[-1][1]) not in ("chunks", "chunks_exact"):
+            continue
+        ch = chain[-1]
+        base = W.expand(ch[2][0])
+        mp = [c for c in chain if callee_name(c[1]) == "map"][0]
+        clo = mp[2][1]
+        tk = [c for c in chain if callee_name(c[1]) == "take"]
+        detail = fmt(src)[:200]
+        pair_ok = False
+        if isinstance(clo, tuple) and clo and clo[0] == "closure" and clo[1] in P.fns and ch[2][1] == ("int", 2) and \
+                isinstance(base, tuple) and base[0] == "index" and base[1] == ("field", ("param", cr.path, 1), "levels"):
+            K = P.fns[clo[1]]
+            kev = W.ev(K.path)
+            hs = [b2 for b2, t2 in K.calls() if strip_generics(t2["fn"].get("path", "")).endswith("MerkleTree::hash_nodes")]
+            if len(hs) == 1 and not K.loops():
+                ka = kev.call_args(hs[0])
+
+                def elem(x):
+                    x = W.expand(x) if False else x
+                    if isinstance(x, tuple) and x and x[0] in ("index", "idx") and x[1] == ("param", K.path, 2) and isinstance(x[2], tuple) and x[2][0] == "int":
+                        return abs(x[2][1])
+                    return None
+                pair_ok = elem(ka[1]) == 0 and elem(ka[2]) == 1 and values.strip_payload(kev.ret()) == kev.call_term(hs[0])
+                detail = "hash_nodes(%s, %s) over %s" % (fmt(ka[1]), fmt(ka[2]), fmt(base))
+        return {"pair_ok": pair_ok, "detail": detail, "chunks_bb": ch[3][1], "child_level": base[2] if isinstance(base, tuple) and base[0] == "index" else None,
+                "parent_level": tgt[2], "take_bb": tk[0][3][1] if tk else None}
+    return None
+
+
 def walker(ctx, W, path, param):
     """The function that actually contains the level walk: `path` itself, or the crate-local method it forwards its position parameter to
     (a thin wrapper such as get_paths -> get_paths_into).  Returns (Fn, local number of the position parameter)."""
@@ -53,7 +101,7 @@ def walker(ctx, W, path, param):
     return fn, param
 
 
-def count_tracks_level(ctx, W, cr, ev0, hash_bb, child_level):
+def count_tracks_level(ctx, W, cr, ev0, hash_bb, child_level, iter_form=None):
     """The pair loop must consume exactly the (padded) children level: with c the node counter tested for oddness,
     the counter is c+1 on the odd edge (where the zero node is appended to the CHILDREN level, before pairing), then halved, and the pair loop runs
     0..counter.  Each update of the counter is classified by evaluating its extracted expression as a function of the previous value."""
@@ -61,10 +109,17 @@ def count_tracks_level(ctx, W, cr, ev0, hash_bb, child_level):
     P = ctx.prog
     key = "compute_root/count-tracks-level"
     loc = cr.loc(hash_bb)
-    inner = min(cr.in_loop(hash_bb), key=lambda l: len(l["body"])) if cr.in_loop(hash_bb) else None
-    outer = max(cr.in_loop(hash_bb), key=lambda l: len(l["body"])) if cr.in_loop(hash_bb) else None
-    if inner is None or outer is None or inner is outer:
-        return ctx.violation("index-algebra", key, "the pairing of children is not a loop nested in the per-level loop", loc)
+    if iter_form is not None:
+        # children are paired by `levels[child].chunks(2)[.take(n)].map(|p| hash_nodes(p[0], p[1]))`: the "inner loop" is that iterator chain
+        outer = max(cr.in_loop(hash_bb), key=lambda l: len(l["body"])) if cr.in_loop(hash_bb) else None
+        inner = {"header": hash_bb, "body": set()}
+        if outer is None:
+            return ctx.violation("index-algebra", key, "the pairing of children is not inside the per-level loop", loc)
+    else:
+        inner = min(cr.in_loop(hash_bb), key=lambda l: len(l["body"])) if cr.in_loop(hash_bb) else None
+        outer = max(cr.in_loop(hash_bb), key=lambda l: len(l["body"])) if cr.in_loop(hash_bb) else None
+        if inner is None or outer is None or inner is outer:
+            return ctx.violation("index-algebra", key, "the pairing of children is not a loop nested in the per-level loop", loc)
     # the parity test and the counter it reads
     T = None
     Lc = None
@@ -136,7 +191,9 @@ def count_tracks_level(ctx, W, cr, ev0, hash_bb, child_level):
         return False
 
     halves = classes.get("halve", []) + classes.get("halve-ceil", [])
-    if len(halves) != 1 or halves[0][0] not in outer["body"] or halves[0][0] in inner["body"] or not cr.dominates(halves[0][0], hdr):
+    if iter_form is not None and iter_form.get("take_bb") is None and not halves:
+        pass    # the counter only drives the per-level loop; it must still follow the level sizes
+    if len(halves) != 1 or halves[0][0] not in outer["body"] or halves[0][0] in inner["body"] or (iter_form is None and not cr.dominates(halves[0][0], hdr)):
         problems.append("the node counter is not halved exactly once per level before the pairing loop")
     else:
         hb = halves[0][0]
@@ -159,7 +216,8 @@ def count_tracks_level(ctx, W, cr, ev0, hash_bb, child_level):
         if callee_name(pt["fn"].get("path", "")) != "push":
             continue
         a = ev0.call_args(pb)
-        if not (is_call(a[1], "from_elem") or a[1][0] == "repeat"):
+        from lib import zero_fill
+        if zero_fill(W, ev0, a[1]) is None:
             continue
         npad += 1
         tgt = a[0]
@@ -172,11 +230,17 @@ def count_tracks_level(ctx, W, cr, ev0, hash_bb, child_level):
     if npad == 0 and not classes.get("halve-ceil"):
         problems.append("no padding node is appended")
     # the pairing loop runs 0..counter
-    # the Range the pairing loop iterates is built from the counter after halving (read through the counter symbol)
     okr = False
+    if iter_form is not None:
+        # no `take`: every chunk is consumed; `take(n)`: n must be the halved counter
+        if iter_form.get("take_bb") is None:
+            okr = True
+        else:
+            tb = iter_form["take_bb"]
+            okr = evs.call_args(tb)[1] == SYM and len(halves) == 1 and cr.dominates(halves[0][0], tb)
     rngs = []
     for bl in cr.blocks:
-        if bl.idx in outer["body"] and bl.idx not in inner["body"] and cr.dominates(bl.idx, hdr):
+        if iter_form is None and bl.idx in outer["body"] and bl.idx not in inner["body"] and cr.dominates(bl.idx, hdr):
             for i, st in enumerate(bl.stmts):
                 if st["k"] == "assign" and st["rv"]["k"] == "agg" and str(st["rv"].get("adt", "")).endswith("ops::range::Range"):
                     rngs.append((bl.idx, i, evs.rvalue(st["rv"], (bl.idx, i))))
@@ -297,8 +361,17 @@ def run(ctx):
                     for s in values.subterms(li[1]):
                         if isinstance(s, tuple) and s and s[0] == "vfield" and s[2] == "Some" and is_call(s[1]) and callee_name(s[1][1]) == "next":
                             ivar = s
-    if ivar is None:
+    itf = iterator_pairing(ctx, W, cr, ev0) if ivar is None else None
+    if ivar is None and itf is None:
         ctx.violation("index-algebra", "compute_root/children", "cannot find hash_nodes(levels[..][f(i)], levels[..][g(i)]) over a range variable", ctx.loc(cr))
+    elif ivar is None:
+        ctx.check("index-algebra", "compute_root/children", itf["pair_ok"], "parent i = hash_nodes(child 2i, child 2i+1): chunks of two, hashed as (pair[0], pair[1])",
+                  "compute_root pairs %s" % itf["detail"], cr.loc(itf["chunks_bb"]))
+        pl_, cl_ = itf["parent_level"], itf["child_level"]
+        okp = cl_ == ("bin", "Sub", pl_, ("int", 1)) or pl_ == ("bin", "Add", cl_, ("int", 1))
+        ctx.check("index-algebra", "compute_root/parent-level", okp, "the parents are appended to the level above their children",
+                  "parent hashes go to level %s, children come from level %s" % (fmt(pl_), fmt(cl_)), cr.loc(itf["chunks_bb"]))
+        count_tracks_level(ctx, W, cr, ev0, itf["chunks_bb"], cl_, iter_form=itf)
     else:
         ev = Ev(P, cr, assume={ivar: ("aff", 1, 0)})
         for bb, t in cr.calls():
@@ -325,13 +398,22 @@ def run(ctx):
     for bb, t in cr.calls():
         if callee_name(t["fn"].get("path", "")) == "push":
             a = ev0.call_args(bb)
-            if is_call(a[1], "from_elem") or (a[1][0] == "repeat"):
+            from lib import zero_fill
+            tgt_is_level = isinstance(a[0], tuple) and a[0][0] == "index" and a[0][1] == ("field", ("param", cr.path, 1), "levels")
+            fresh = is_call(a[1], "from_elem") or a[1][0] in ("repeat", "obj")
+            if tgt_is_level and fresh and not values.contains(a[1], lambda x: is_call(x, "MerkleTree::hash_nodes")):
                 pads += 1
                 rels = flow.rel_facts_at(IN, bb)
-                okg = any(r[0] == "Ne" and isinstance(r[1], tuple) and r[1][0] == "bin" and r[1][1] == "Rem" and r[1][3] == ("int", 2) and r[2] == ("int", 0) for r in rels)
+
+                def oddfact(r):
+                    if not (isinstance(r[1], tuple) and r[1] and r[1][0] == "bin" and r[1][1] in ("Rem", "BitAnd")):
+                        return False
+                    two = r[1][3] == (("int", 2) if r[1][1] == "Rem" else ("int", 1))
+                    return two and ((r[0] == "Ne" and r[2] == ("int", 0)) or (r[0] == "Eq" and r[2] == ("int", 1)))
+                okg = any(oddfact(r) for r in rels)
                 ctx.check("padding", "compute_root/padding-only-when-odd", okg, "padding node pushed only on the odd-count edge",
                           "padding node is pushed without the `count % 2 != 0` guard", cr.loc(bb))
-                okz = (is_call(a[1], "from_elem") and a[1][2][0] == ("int", 0)) or (a[1][0] == "repeat" and a[1][1] == ("int", 0))
+                okz = zero_fill(W, ev0, a[1]) is not None
                 ctx.check("padding", "compute_root/padding-is-zero", okz, "padding node is all zero bytes", "padding node is %s" % fmt(a[1]), cr.loc(bb))
     ctx.floor("padding", pads, 1, "padding pushes in compute_root")
 
